@@ -63,9 +63,30 @@ def run(cls, mod, hp, n_agents, n_vars, n_iter, seed, kind='search', box=(-5.0, 
     return hashlib.sha256(blob.encode()).hexdigest()[:20]
 
 
+def primitives():
+    """one direct call of every random / distribution / selection primitive (scalar requests, an odd number of each): state kept by a
+    primitive between calls (a spare deviate, a cached table) is left behind for the seeded task"""
+    import opytimizer.math.random as r
+    import opytimizer.math.distribution as d
+    import opytimizer.math.general as g
+    np.random.seed(4242)
+    for call in (lambda: r.generate_uniform_random_number(), lambda: r.generate_gaussian_random_number(),
+                 lambda: r.generate_gaussian_random_number(0.5, 2.0), lambda: r.generate_gaussian_random_number(size=1),
+                 lambda: r.generate_uniform_random_number(0, 1, 3), lambda: d.generate_bernoulli_distribution(0.5, 1),
+                 lambda: d.generate_levy_distribution(1.5, 1), lambda: g.tournament_selection([3.0, 1.0, 2.0], 1),
+                 lambda: list(g.pairwise([1, 2, 3]))):
+        try:
+            call()
+        except Exception:  # noqa: BLE001
+            pass
+
+
 def main():
     p = json.loads(sys.argv[1])
     for w in p.get('prior', []):
+        if w.get('cls') == '__primitives__':
+            primitives()
+            continue
         try:
             run(w['cls'], w['mod'], w.get('hp'), w.get('n_agents', 3), w.get('n_vars', 2), w.get('n_iter', 2), w.get('seed', 99),
                 w.get('kind', 'search'), w.get('box', (-5.0, 5.0)), w.get('objective', 'plain'))
